@@ -120,13 +120,30 @@ for _ in range(n_orders):
     ev += [["parse", T], ["pickle", T, rng.choice(ATOMS[1:])]]
     add(ev, "nine-inits", full_base=False)
 
-# (2b) isolation scenarios: both tables initialised after the public touch, then one assignment or mutation
+# (2b) short directed histories, one per way the isolation could break (they are ordinary members of the
+#      quantifier domain; a failure among them is already a near-minimal witness)
+def add_probe(events):
+    histories.append(events)
+    kinds.append("directed")
+
+
 for g in LAZY_GROUPS:
+    key = KEY_OF_GROUP[g]
+    reads = lambda T: [["read", T, a, n] for n in GROUPS[g] for a in ("E1", "I11", "E0")]
+    # init(T) before / after the public first touch; T then serves what the public table serves
+    add_probe([["new", "p1"], ["init", "density.init", "p1"], ["init", key, "p1"]] + reads("pub") + reads("p1"))
+    add_probe([TOUCH[g][0], ["new", "p1"], ["init", "density.init", "p1"], ["init", key, "p1"]] + reads("pub") + reads("p1"))
+    # init(T) before density.init(T), then again
+    add_probe([TOUCH[g][0], ["new", "p1"], ["init", key, "p1"], ["init", "density.init", "p1"], ["init", key, "p1"]] + reads("p1"))
     for n in GROUPS[g]:
         for a in ("E1", "E0", "I11", "I01", "XE1"):
+            # assignment on a table that was never initialised for the group, before any public touch
+            add_probe([["new", "p1"], ["set", "p1", a, n]] + reads("pub"))
             for k in ("set", "mut"):
-                add([rng.choice(TOUCH[g]), ["init", KEY_OF_GROUP[g], "p1"], ["init", KEY_OF_GROUP[g], "p2"],
-                     [k, "p1", a, n]], "isolation")
+                add_probe([TOUCH[g][-1], ["new", "p1"], ["init", "density.init", "p1"], ["init", key, "p1"],
+                           ["new", "p2"], ["init", "density.init", "p2"], ["init", key, "p2"], [k, "p1", a, n],
+                           ["read", "pub", a, n], ["read", "p2", a, n], ["read", "p1", a, n]])
+add_probe([["new", "p1"], ["parse", "p1"]] + [["pickle", "p1", a] for a in ATOMS] + [["new", "p2"], ["parse", "p2"], ["parse", "p1"]])
 # (3) random interleavings over the whole alphabet
 ALPHA = []
 for T in ["pub"] + PRIV:
@@ -220,23 +237,26 @@ def modname(key):
 
 
 def culprit_set(h, i, oc):
-    """the events before h[i] that act on the group of h[i] through a private table, each flagged `early` when
-    no public observation had touched that group before it"""
+    """the events before h[i] that act on the group of h[i] through a private table: (kind, on the observed table
+    or another one, what, early = no public observation had touched the group before it, it returned normally)"""
     grp = set(event_groups(h[i]))
+    f = h[i]
+    X = f[1] if f[0] in ("read", "has", "parse", "pickle") else (f[2] if f[0] == "calc" else "pub")
     touched_pub, out = False, set()
     for j in range(i):
         x = h[j]
         if not (set(event_groups(x)) & grp):
             continue
         T = x[1] if x[0] in ("read", "has", "set", "mut") else (x[2] if x[0] in ("calc", "init") else "pub")
+        rel = "self" if T == X else "other"
         if T == "pub":
             touched_pub = True
         elif x[0] == "init":
-            out.add(("init", T, x[1], not touched_pub, oc[j] == "OOk"))
+            out.add(("init", rel, x[1], not touched_pub, oc[j] == "OOk"))
         elif x[0] == "set" and oc[j] == "OOk":
-            out.add(("set", T, x[2] + "." + x[3], not touched_pub, True))
+            out.add(("set", rel, x[2] + "." + x[3], not touched_pub, True))
         elif x[0] == "mut" and oc[j] == "OOk":
-            out.add(("mut", T, x[2] + "." + x[3], not touched_pub, True))
+            out.add(("mut", rel, x[2] + "." + x[3], not touched_pub, True))
     return frozenset(out)
 
 
@@ -287,7 +307,7 @@ for key, (prefix, oc_last) in todo:
     # already explained by a minimal failing history found before (same group, same observed side, same outcome)?
     if any(k2[:3] == key[:3] and c2 <= cul for k2, c2 in explained):
         continue
-    if processed >= (40 if quick else 400):
+    if processed >= (30 if quick else 300):
         break
     processed += 1
 
